@@ -38,7 +38,7 @@ def shards(tier, seed):
     out = [{"kind": "matrix", "system": s, "name": f"matrix-{s}"} for s in SYSTEMS]
     out.append({"kind": "members", "name": "members"})
     for i in range(3 if tier == "quick" else 10):
-        out.append({"kind": "history", "name": f"history{i}", "n": 40 if tier == "quick" else 300})
+        out.append({"kind": "history", "name": f"history{i}", "n": 60 if tier == "quick" else 300})
     for i in range(2 if tier == "quick" else 8):
         out.append({"kind": "generated", "name": f"gen{i}", "n": 25 if tier == "quick" else 250})
     out.append({"kind": "compound", "name": "compound", "n": 1500 if tier == "quick" else 30000})
@@ -284,13 +284,27 @@ def run_history(spec, rec, rng, pint, pintload, m, names):
             return out
 
         trace = []
+        explicit_seen = False
         for step in range(rng.randint(6, 25)):
-            op = rng.choice(("sys", "sys", "probe", "probe", "addunit", "rmunit", "addgroup", "rmgroup", "members"))
+            op = rng.choice(("sys", "sys", "probe", "probe", "explicit", "addunit", "rmunit", "addgroup", "rmgroup", "members"))
             rec.count("history_steps")
             if op == "sys":
                 cur = rng.choice(SYSTEMS)
                 trace.append(("default_system", cur))
                 ureg.default_system = cur
+                explicit_seen = False
+                op = "probe-all"
+            if op == "explicit":
+                # a query for ANOTHER system by argument must not influence later default-system answers
+                other_sys = rng.choice([x for x in SYSTEMS if x and x != cur])
+                p = rng.choice(probes)
+                trace.append(("get_base_units(system=)", other_sys, str(p)))
+                explicit_seen = True
+                try:
+                    ureg.get_base_units(ureg.UnitsContainer({k: int(v) for k, v in p.items()}), system=other_sys)
+                except Exception as e:  # noqa: BLE001
+                    rec.violation("history-raised", {"trace": trace[-8:], "err": repr(e)[:200]}, workload="history",
+                                  system=str(other_sys), via="explicit")
                 op = "probe-all"
             plist = probes if op == "probe-all" else [rng.choice(probes)] if op == "probe" else []
             for p in plist:
@@ -348,8 +362,14 @@ def run_history(spec, rec, rng, pint, pintload, m, names):
                     trace.append(("remove_groups", g, g2))
                     ureg.get_group(g).remove_groups(g2)
                     grp_used[g].discard(g2)
-                # after every edit: members of all groups and systems vs tracker
-                for gg in grp_units:
+                # after an edit: members vs tracker.  WHICH memos are read matters (reading a child's
+                # members refills its memo and can hide a broken invalidation chain), so the read
+                # pattern is part of the history: everything / systems only / one random group / nothing
+                read_mode = rng.choice(("all", "systems-only", "systems-only", "one-group", "one-group", "none"))
+                rec.observe("read_modes", read_mode)
+                read_groups = list(grp_units) if read_mode == "all" else \
+                    [rng.choice(list(grp_units))] if read_mode == "one-group" else []
+                for gg in read_groups:
                     want = closure(gg)
                     got = set(ureg.get_group(gg).members)
                     if got != want:
@@ -357,7 +377,7 @@ def run_history(spec, rec, rng, pint, pintload, m, names):
                                                                    "missing": sorted(want - got)[:5],
                                                                    "extra": sorted(got - want)[:5]},
                                       workload="history", system="-", via="group-edit")
-                for S, used in sys_used.items():
+                for S, used in (sys_used.items() if read_mode in ("all", "systems-only") else ()):
                     want = set()
                     for gg in used:
                         want |= closure(gg)
